@@ -288,6 +288,9 @@ func genFile(r *hx.Rng, run *hx.Run) string {
 	if r.Chance(1, 4) {
 		return genStrip(r, run)
 	}
+	if r.Chance(1, 16) {
+		return genCollide(r, run)
+	}
 	var b strings.Builder
 	// ---- text layer: separators, line terminators, blanks and comments anywhere ----
 	sep := func() string {
@@ -716,6 +719,9 @@ func fixedFiles() []string {
 		v + "vt 0.5\n",                                                              // 1-D texture coordinate: panic
 		v + "g a\nf 1/0/1 2/0/1 3/0/1\n",                                            // index 0 for vt: treated as absent
 		v + "g a\nf 1/1/1 2/2/2 3/1/1\nf 1/1/1 3/1/1 4/2/2\nf 1/2/1 2/2/2 4/2/2\n", // shared and unshared tokens
+		// tokens that differ only in where the slashes are (twelve vertices, two vt, two vn)
+		"v 1 0 0\nv 2 0 0\nv 3 0 0\nv 4 0 0\nv 5 0 0\nv 6 0 0\nv 7 0 0\nv 8 0 0\nv 9 0 0\nv 10 0 0\nv 11 0 0\nv 12 0 0\n" +
+			"vt 0 0\nvt 1 1\nvn 0 0 1\nvn 0 1 0\ng a\nf 1/1 11 2/1\nf 1/2 12 1//2\nf 1/1/2 11/2 3/1\n",
 	}
 }
 
